@@ -246,6 +246,9 @@ def main(argv=None):
         print("unknown property %s" % prop)
         return 2
     env.bootstrap()
+    import shutil, atexit
+    run_scratch = env.new_run_scratch()
+    atexit.register(lambda: shutil.rmtree(run_scratch, ignore_errors=True))
     module = importlib.import_module("vf.props." + MODULES[prop])
     ctx = Ctx(prop, tier, seed, jobs)
     known = load_known()
@@ -275,6 +278,7 @@ def main(argv=None):
         crashed = traceback.format_exc()
     finally:
         ctx.close()
+        shutil.rmtree(run_scratch, ignore_errors=True)
     if crashed:
         # an exception in the harness itself is not a verdict about the property: fail loudly, distinctly
         print(crashed)
